@@ -15,6 +15,11 @@ CHECKS = {
     technique="TLA+ reference encoder (Wire.tla) with the pinned opcode table; TLC-generated walking-value vectors compared byte for byte with the real encoder; recorded real encodings validated by TLC",
     text="The specification is an independent encoder for the 7-byte layout; TLC emits, for every class x field-wise valuation (all 64 registers, all 256 immediates, 32-bit walking ones and boundaries) and for streams x app ids x versions, the bytes the format demands, and the rig compares the real bytes; the extracted instruction table must contain every published entry; random real encodings are validated against Wire!EncSub and Wire!DecSub by TLC.",
     note="Trusted: TLC, the pinned table (\"published\" = table at the base commit), harness/isa.py."),
+ "C15": dict(
+    engine="msg", category="model_checking", design="5 C15",
+    technique="TLA+ channel spec (Msg.tla); TLC-enumerated message universe replayed on the real bytes()/deserialize_*; recorded real round trips validated by TLC (MsgTrace)",
+    text="TLC enumerates every message type with field-wise boundary values (u32 as limbs, i32 sign boundaries, all 64 registers) and every undefined-pattern of arrays of length 0..3 (quick) / 0..4 (thorough) and explores the Send/Deliver channel with the invariant delivered = sent; each universe entry is replayed on the real code and the projection of the deserialised message must equal the abstract message that was sent (not the ctypes-truncated object); random messages with wide values and arrays to length 64 are recorded and validated by TLC.",
+    note="Trusted: TLC, harness/eng_msg.py projection. A defect found by this check (undefined entries -> 0) was repaired in /repo commit f486e13."),
 }
 
 REASON_TODO = "check not built yet (work in progress; see DESIGN.md section 9)"
